@@ -153,7 +153,7 @@ def matrix_protos():
     for cfg in CONFIGS[9:14] + CONFIGS[16:18]:
         for rep in (False, True):
             j += 1
-            mk(alpha_tag('Mf', j), [fix('Code', 5, repeat=rep), fix('Other', 3, pad=('right', '0')), fix('Zed', 4, zchar=True)], options=cfg)
+            mk(alpha_tag('Mf', j), [fix('Code', 5, repeat=rep), fix('Second', 3, pad=('right', '0')), fix('Zed', 4, zchar=True)], options=cfg)
     # objects
     j = 0
     for rep in (False, True):
@@ -252,7 +252,7 @@ def matrix_protos():
                 f = Field('meta', 'Mine' if named else ent, entry=ent, named=named, repeat=rep)
                 mk(alpha_tag('Md', j), [num('Pre', 'u8'), f, num('Post', 'u16')], metadata=md)
     j += 1
-    mk(alpha_tag('Md', j), [Field('meta', 'Code', entry='Code', named=False, pad=('left', '0')), Field('meta', 'Other', entry='Code', named=True), num('Post', 'u16')], metadata=md)
+    mk(alpha_tag('Md', j), [Field('meta', 'Code', entry='Code', named=False, pad=('left', '0')), Field('meta', 'Second', entry='Code', named=True), num('Post', 'u16')], metadata=md)
     j += 1
     mk(alpha_tag('Md', j), [Field('meta', 'Seq', entry='Seq', named=False), Field('meta', 'Again', entry='Seq', named=True),
                       Field('ref', 'Inner', packet='Inner', named=False)], subs=[('Inner', [Field('meta', 'Seq', entry='Seq', named=False), Field('meta', 'Code', entry='Code', named=False)])], metadata=md)
